@@ -102,4 +102,3 @@ package req
 //@   assert before ReadBodyWithStreaming: contentLength != -2 && arg0 == zr && arg1 == contentLength && arg2 == maxBodySize && !csPrefetched
 //@   ghostset after ReadBodyWithStreaming: csPrefetched = true
 //@   assert before AcquireBodyStream: csPrefetched && arg1 == zr && arg3 == contentLength
-
